@@ -88,11 +88,18 @@ def execute(c):
                 ev["outcome"] = "alignment_is_not_origin_modulo_pixel_size"
             if not (gs == _gs(g)) or gs == "gridspec" or gs == _gs(dict(g, ox=g["ox"] + 1)):
                 ev["outcome"] = "gridspec_equality_or_hash_inconsistent"
-        elif op in ("bbox", "poly"):
-            if op == "bbox":
+        elif op in ("bbox", "poly", "mpoly"):
+            if op == "mpoly":
+                parts = [[(p[0] / S, p[1] / S) for p in part] for part in c["q"]]
+                mp = G.multipolygon([[part + part[:1]] for part in parts], CRS_A)
+                out = [list(map(int, i)) for i, _ in gs.tiles_from_geopolygon(mp)]
+                xs, ys = [p[0] for part in c["q"] for p in part], [p[1] for part in c["q"] for p in part]
+                x0, y0, x1, y1 = min(xs), min(ys), max(xs), max(ys)
+            elif op == "bbox":
                 q = c["q"]
                 x0, y0, x1, y1 = q
-                bb = G.BoundingBox(x0 / S, y0 / S, x1 / S, y1 / S, CRS_A)
+                eps = c.get("grow", 0) * 1e-9
+                bb = G.BoundingBox(x0 / S - eps, y0 / S - eps, x1 / S + eps, y1 / S + eps, CRS_A)
                 res = list(gs.tiles(bb))
                 out = [list(map(int, i)) for i, _ in res]
                 # every returned GeoBox is the tile of that index; a caller-supplied cache and the GeoJSON listing give the same tiles
